@@ -15,8 +15,8 @@ open ArrowModel.C17
 theorem loopCond_iff (zz : BitVec 64) : (zz &&& ~~~(127#64) ≠ 0#64) ↔ 128 ≤ zz.toNat := by
   have h : (zz &&& ~~~(127#64) ≠ 0#64) ↔ (128#64 ≤ zz) := by
     constructor
-    · intro h; bv_decide
-    · intro h; bv_decide
+    · intro h; bv_decide (config := { timeout := 300 })
+    · intro h; bv_decide (config := { timeout := 300 })
   rw [h, BitVec.le_def]; rfl
 
 theorem and127 (zz : BitVec 64) : (zz &&& 127#64).toNat = zz.toNat % 128 := by
@@ -268,16 +268,16 @@ theorem readVlq_uleb (z : Nat) (hz : z < 2 ^ 64) (rest : List Nat) :
 
 theorem zz_roundtrip (x : BitVec 64) : zzDec (zzEnc x) = x := by
   simp only [zzDec, zzEnc, R_ZZ_SHR, R_ZZ_AND, W_ZZ_SHL, W_ZZ_SAR]
-  bv_decide
+  bv_decide (config := { timeout := 300 })
 
 theorem zz32_roundtrip (x : BitVec 32) : zzDec32 ((zzEnc (x.signExtend 64)).truncate 32) = x := by
   simp only [zzDec32, zzEnc, R_ZZ32_SHR, R_ZZ32_AND, W_ZZ_SHL, W_ZZ_SAR]
-  bv_decide
+  bv_decide (config := { timeout := 300 })
 
 theorem zz32_small (x : BitVec 32) : (zzEnc (x.signExtend 64)).toNat < 2 ^ 32 := by
   have : zzEnc (x.signExtend 64) < 4294967296#64 := by
     simp only [zzEnc, W_ZZ_SHL, W_ZZ_SAR]
-    bv_decide
+    bv_decide (config := { timeout := 300 })
   simpa [BitVec.lt_def] using this
 
 /-- **`get_long` inverts `write_long`** for every `i64`, leaving the rest of the buffer. -/
@@ -369,7 +369,7 @@ theorem vlqLong_uleb (z : Nat) : ∀ (c ip : Nat) (rest : List Nat), c ≤ 9 →
 
 theorem blockZz_roundtrip (x : BitVec 64) : blockZz (zzEnc x).toNat = x := by
   simp only [blockZz, BitVec.ofNat_toNat, BitVec.setWidth_eq, zzEnc, B_ZZ_SHR, W_ZZ_SHL, W_ZZ_SAR]
-  bv_decide
+  bv_decide (config := { timeout := 300 })
 
 theorem leBytes_length (n v : Nat) : (leBytes n v).length = n := by
   induction n generalizing v with
